@@ -63,6 +63,7 @@ func Marshal(g geom.T, applyOptFns ...EncodeOption) (string, error) {
 // Unmarshal translates a WKT to the corresponding geometry.
 func Unmarshal(wkt string) (geom.T, error) {
 	wktlex := newWKTLex(wkt)
+	verifEmit(wktlex, "begin", wkt, true)
 	wktParse(wktlex)
 	if wktlex.lastErr != nil {
 		return nil, wktlex.lastErr
